@@ -109,7 +109,7 @@ PROPS = {
         'design_ref': 'DESIGN.md section 5 C05',
     },
     'C03': {
-        'modules': FS_MODULES,
+        'modules': FS_MODULES + ['contracts.connection'],
         'lemmas': [],
         'level': 'proof',
         'bounded': [
@@ -310,7 +310,7 @@ PROPS['C18'] = {
 }
 
 PROPS['C10'] = {
-    'modules': FS_MODULES + ['contracts.demostorage', 'contracts.conflict'],
+    'modules': FS_MODULES + ['contracts.demostorage', 'contracts.conflict', 'contracts.connection'],
     'lemmas': [],
     'level': 'proof',
     'bounded': [
@@ -462,6 +462,41 @@ PROPS['C08'] = {
     'note': 'NOT covered deductively: the schedule quantifier (T3: code between lock operations is atomic). A-DIRECTORY, '
             'A-PACKER-RESULT, A-FILEPOOL assumed. F8 (flag stuck) fixed; F6 (non-atomic swap) open.',
     'design_ref': 'DESIGN.md section 5 C08',
+}
+
+PROPS['C11'] = {
+    'modules': ['contracts.fs_format', 'contracts.connection'],
+    'lemmas': [],
+    'level': 'other',
+    'explanation': 'proved: the bookkeeping methods of Connection over a ghost universe of persistent objects; bounded '
+                   '(labelled): _commit/_store_objects/ObjectWriter and whole programs on the real storages',
+    'bounded': [
+        {'func': 'ZODB.Connection:Connection<programs>',
+         'bound': '9 fixed + 60 (thorough: 600) random programs of <=12 steps over <=6 objects of three kinds (custom '
+                  'Persistent, PersistentMapping, PersistentList) on Mapping/File/DemoStorage: modify, add implicitly and '
+                  'explicitly, remove, re-add, commit, abort, failed commit in the commit phase (conflict through a second '
+                  'connection) / vote / finish, add() with joining refused, close inside and outside a transaction, '
+                  'reopen from the pool; after EVERY step _p_jar/_p_oid/_p_changed/_p_serial and re-read attribute values '
+                  'of every object ever created against the model, after every commit the set of oids written under the '
+                  'one transaction id'},
+    ],
+    'text': 'Mixed level. PROVED (whole-universe postconditions: what happens to the objects concerned AND that every other '
+            'object keeps oid/jar/serial/changed): _abort (registered objects: added ones disowned and removed from '
+            '_added and the cache, the others ghostified in the cache - loop invariant over the first-occurrence index); '
+            '_invalidate_creating (every object stored as new and filed in the cache is removed and disowned); abort = '
+            'every object new in the transaction belongs to no database, every other registered cached object is a ghost, '
+            'bookkeeping reset; tpc_abort (storage aborted once with this transaction, modified -> ghosts, created and '
+            'still-added -> disowned, maps emptied); tpc_finish (after the storage finished: stored non-ghost cached objects '
+            'clean with the new tid, ghosts and all others untouched; storage failure touches nothing); _register (join '
+            'first; if joining is refused the connection does NOT consider itself joined and the list is untouched); '
+            'register / add / _add decision tables (a refused join leaves the object unowned); close refuses before any '
+            'effect while joined; commit checks every remaining readCurrent oid inside the storage transaction with and '
+            'without savepoints; tpc_vote ghostifies resolved / conflicting objects. BOUNDED only: _commit/_store_objects/'
+            'ObjectWriter (which objects are stored), savepoints (C12), cacheGC/open/pool reuse - by the program harness.',
+    'note': 'Assumes A-PERSISTENT, A-PICKLECACHE (C code) and CONNINV (representation invariant of the connection, not '
+            'proved to be preserved by _store_objects). F20 fixed; F21 (new object that never reached the cache keeps oid '
+            'and jar after a failed commit) open, printed as KNOWN-FINDING.',
+    'design_ref': 'DESIGN.md section 5 C11',
 }
 
 NOT_YET = {}
